@@ -9,12 +9,15 @@ tools/buildlib.sh asan >/dev/null &
 P2=$!
 tools/buildlib.sh tsan >/dev/null &
 P3=$!
+tools/buildlib.sh pattern >/dev/null &
+P4=$!
 tools/buildref.sh >/dev/null
-wait $P1 $P2 $P3
+wait $P1 $P2 $P3 $P4
 pids=()
 for h in dx c05 c06 c07 c09 c10 c11 c13api c14 c16; do tools/buildharness.sh checks/$h.cc plain >/dev/null & pids+=($!); done
 tools/buildharness.sh checks/c12.cc plain -rdynamic >/dev/null & pids+=($!)
 tools/buildharness.sh checks/c12_tsan.cc tsan -rdynamic >/dev/null & pids+=($!)
-for h in dx c15 c10 c11 c09; do tools/buildharness.sh checks/$h.cc asan >/dev/null & pids+=($!); done
+for h in dx c15 c10 c11 c09 c07 c14; do tools/buildharness.sh checks/$h.cc asan >/dev/null & pids+=($!); done
+tools/buildharness.sh checks/dx.cc pattern >/dev/null & pids+=($!)
 for p in "${pids[@]}"; do wait "$p"; done
 echo "setup ok"
